@@ -1137,6 +1137,24 @@ def spectrum_case(case):
             if 'binned_tau' in out3:
                 r.check(ref.same_numbers(out3['binned_tau'], fresh3.bindown(wn3.copy(), tau.copy())[1], exact=False,
                                          rtol=1e-12), 'b:second-output', 'b/third/binned_tau/%s' % cls)
+    # ... a result whose native points come in two ascending blocks, the higher block first (two opacity sources
+    # concatenated): what is stored is what the binner gives for exactly those arrays - and for the same points sorted
+    if len(wn) > 3 and bl != 'native':
+        h_ = len(wn) // 2
+        ix = np.concatenate([np.arange(h_, len(wn)), np.arange(0, h_)])
+        wn4, fl4, tau4 = wn[ix].copy(), flux[ix].copy(), tau[..., ix].copy()
+        try:
+            out4 = binner.generate_spectrum_output((wn4, fl4, tau4, None), output_size=OutputSize[size])
+            fresh4 = make_binner(bl, case['grid'])[0]
+            r.check(ref.same_numbers(out4['binned_spectrum'], fresh4.bindown(wn4.copy(), fl4.copy())[1], exact=False,
+                                     rtol=1e-12), 'b:second-output', 'b/blocks/binned_spectrum/%s' % cls)
+            r.check(ref.same_numbers(out4['binned_spectrum'], fresh4.bindown(wn.copy(), flux.copy())[1], exact=False,
+                                     rtol=1e-12), 'b:second-output', 'b/blocks/binned_spectrum-vs-sorted/%s' % cls)
+            if 'binned_tau' in out4:
+                r.check(ref.same_numbers(out4['binned_tau'], fresh4.bindown(wn.copy(), tau.copy())[1], exact=False,
+                                         rtol=1e-12), 'b:second-output', 'b/blocks/binned_tau-vs-sorted/%s' % cls)
+        except Exception as e:
+            r.check(False, 'b:second-output', 'b/blocks/raised/%s/%s' % (type(e).__name__, cls), exc=repr(e))
     # ... then on a grid with other end points
     wn2 = wn * (1.0 + 0.013 * np.arange(len(wn)) / max(len(wn) - 1, 1)) + 3.0
     out2 = binner.generate_spectrum_output((wn2, flux2, tau, None), output_size=OutputSize[size])
